@@ -667,3 +667,125 @@ def r_slice_index_guard(cx):
                       "list (e.g. `%s=1`) panics at instantiation instead of being rejected" % (g, key, k, key),
                       cx.where(t["span"]))
     cx.count("R-SLICE-INDEX-GUARD", "sites", n)
+
+
+# ---------------------------------------------------------------------------------------------------------------------
+# R-INSERT-BOUND (C09): Vec::insert / Vec::remove at a constant position need a vector that is long enough
+
+def _vec_minlen(f, v, depth=0):
+    """lower bound of the length of the Vec whose value term is v (read off its history)"""
+    v = mir.strip_refs(v)
+    if depth > 60:
+        return 0
+    if v[0] == "upd":
+        base = _vec_minlen(f, v[1], depth + 1)
+        p = v[2][0] if v[2] else None
+        if isinstance(p, tuple) and p[0] == "elem" and len(p) > 1 and isinstance(p[1], int):
+            return max(base, p[1] + 1)      # v[k] = .. went through: k < len
+        return base
+    if v[0] == "mod":
+        site = v[2]
+        callee = site[1] if isinstance(site, tuple) and len(site) > 1 and isinstance(site[1], str) else ""
+        tail = callee.rsplit("::", 1)[-1]
+        base = _vec_minlen(f, v[1], depth + 1)
+        if "Vec" in callee and tail in ("push", "insert"):
+            return base + 1
+        if "Vec" in callee and tail in ("remove", "pop", "swap_remove"):
+            return max(0, base - 1)
+        if tail in ("swap", "sort", "sort_unstable", "sort_by", "sort_by_key", "reverse", "index_mut", "iter_mut", "deref_mut", "as_mut_slice"):
+            return base
+        return 0
+    if v[0] == "phi":
+        return min([_vec_minlen(f, x, depth + 1) for x in v[2]] or [0])
+    if v[0] == "agg" and v[1] == "array":
+        return len(v[2])
+    return 0
+
+
+def _nonempty_guard(f, site_bb, V):
+    """is site_bb dominated by the non-empty side of a test `V.is_empty()` / `V.join(..)...is_empty()` / len(V) > 0
+    on the very same vector value V?"""
+    V = mir.strip_refs(V)
+    for g in sorted(f.reachable()):
+        t = f.term(g)
+        if t["k"] != "switch" or not f.dominates(g, site_bb) or g == site_bb:
+            continue
+        c = f.operand(t["discr"], f.end_point(g))
+        neg = False
+        while c[0] == "un" and c[1] == "Not":
+            c, neg = c[2], not neg
+        false_bb = None
+        for val, bb in t["targets"]:
+            if val == 0:
+                false_bb = bb
+        true_bb = t["otherwise"]
+        s = _safe_successor(f, g, V, 0)
+        if s is not None and f.dominates(s, site_bb):
+            return True
+        if c[0] == "call" and isinstance(c[1], str) and c[1].rsplit("::", 1)[-1] == "is_empty" and c[2]:
+            x = c[2][0]
+            direct = mir.strip_refs(x) == V
+            via_join = []
+
+            def vis(y):
+                if y[0] == "call" and isinstance(y[1], str) and y[1].rsplit("::", 1)[-1] in ("join", "concat") and y[2]:
+                    r = mir.strip_refs(y[2][0])
+                    while r[0] == "call" and isinstance(r[1], str) and r[1].rsplit("::", 1)[-1] in ("deref", "as_slice", "as_ref", "borrow") and r[2]:
+                        r = mir.strip_refs(r[2][0])
+                    if r == V:
+                        via_join.append(1)
+                return True
+            mir.walk(x, vis)
+            # only trimming / copying between the join and the test: an empty vector joins to the empty string
+            if direct or via_join:
+                nonempty_side = true_bb if neg else false_bb      # is_empty() == false
+                if nonempty_side is not None and f.dominates(nonempty_side, site_bb) and nonempty_side != site_bb or \
+                        (nonempty_side == site_bb and _single_pred(f, site_bb)):
+                    return True
+    return False
+
+
+def _single_pred(f, b):
+    return sum(1 for x in f.reachable() if b in f.succ[x]) == 1
+
+
+@rule("R-INSERT-BOUND", ["C09", "C17"])
+def r_insert_bound(cx):
+    """`Vec::insert(k, ..)` panics when k > len and `Vec::remove(k)` when k >= len. In the text front end (tokenizer and
+    PROJ translator), which sees arbitrary user text, every such call with a constant position is backed by a lower
+    bound on the length of that very vector: read off the vector's history (an element k was written, elements were
+    pushed), or established by a dominating non-emptiness test of the same vector value; or the position is clamped
+    (`len().min(k)`). A vector that has just been rebuilt by filtering has no such bound."""
+    n = 0
+    for name in sorted(cx.f.lib["fns"]):
+        if not name.startswith("token::") or "::tests" in name:
+            continue
+        f = cx.f.fn(name)
+        for bb, t in f.calls():
+            c = f.callee(t) or ""
+            tail = c.rsplit("::", 1)[-1]
+            if not (c.endswith("Vec::<T, A>::insert") or c.endswith("Vec::<T, A>::remove")):
+                continue
+            a = f.arg_terms(bb)
+            if len(a) < 2 or a[0][0] != "refplace":
+                continue
+            idx = mir.strip_refs(a[1])
+            if not is_const_int(idx):
+                continue        # symbolic positions: R-REMOVE-PAIR (tidy_proj); clamped positions are fine by construction
+            k = idx[2]
+            need = k if tail == "insert" else k + 1
+            n += 1
+            if need == 0:
+                ok, how = True, "position 0"
+            else:
+                V = f.local_value(a[0][2], f.end_point(bb)) if not a[0][3] else None
+                have = _vec_minlen(f, V) if V is not None else 0
+                if have < need and V is not None and need == 1 and _nonempty_guard(f, bb, V):
+                    have = 1
+                ok, how = have >= need, "length >= %d" % have
+            cx.ob("R-INSERT-BOUND", "%s/%s%d" % (name, tail, n - 1), ok,
+                  "%s(%d) on a vector of %s" % (tail, k, how) if ok else
+                  "%s calls Vec::%s(%d, ..) on a vector that is not known to hold %d element(s) at that point (it was "
+                  "rebuilt or shrunk after the last test): this panics for a step that is empty after filtering, e.g. a "
+                  "PROJ step consisting of `inv` only" % (name, tail, k, need), cx.where(t["span"]))
+    cx.count("R-INSERT-BOUND", "constant_positions", n)
